@@ -208,9 +208,20 @@ def solve_text(args):
             return "unknown", "z3-error: %s" % e
         finally:
             os.unlink(path)
-    # z3 with a short budget first, cvc5 for what it leaves open, then z3 again with the long budget
+    # z3 with a short budget first, cvc5 for what it leaves open, then z3 again with the long budget.
+    # A `sat` from z3's sequence solver is only a CANDIDATE refutation (it has returned models that violate
+    # congruence of uninterpreted functions over equal strings): it must be confirmed by cvc5; if cvc5 proves the
+    # query unsat the obligation is discharged by cvc5 and the disagreement is recorded.
     res, model = run_z3(Z3_FAST_MS)
-    if res == "unknown" and not model.startswith("z3-error"):
+    if res == "sat":
+        r2, m2 = _run_cvc5(text, CVC5_MS, models=False)
+        if r2 == "unsat":
+            res, model, solver = "unsat", "", "cvc5(z3-sat-not-confirmed)"
+        elif r2 == "unknown":
+            r3, m3 = run_z3(Z3_MS)
+            if r3 == "unsat":
+                res, model, solver = "unsat", "", "z3(retry)"
+    elif res == "unknown" and not model.startswith("z3-error"):
         r2, m2 = _run_cvc5(text, CVC5_MS, models=False)
         if r2 == "sat":
             r2, m2 = _run_cvc5(text, CVC5_MS, models=True)
